@@ -18,6 +18,24 @@ pub fn run(t: &[&str]) -> String {
                 // the model reports the first failing element; i64::MIN handled above only when first
                 return "err diverge".into();
             }
+            // every difference of two u32 values is what the map encoder emits (C11, last clause): the text it writes
+            // for that difference between two consecutive tokens is the canonical text of the difference
+            for &x in &xs {
+                if x.unsigned_abs() <= u32::MAX as u64 {
+                    let (a, b) = if x >= 0 { (x as u32, 0u32) } else { (0u32, (-x) as u32) };
+                    let tok = |col: u32, line: u32| sourcemap::RawToken { dst_line: 0, dst_col: col, src_line: line, src_col: 0, src_id: 0, name_id: !0, is_range: false };
+                    let sm = sourcemap::SourceMap::new(None, vec![tok(0, b), tok(1, a)], vec![], vec!["s".into()], None);
+                    let written = match crate::ops::map::enc_fields(&sm) {
+                        Ok((m, _)) => m,
+                        Err(e) => return e,
+                    };
+                    let second = written.split(',').nth(1).unwrap_or("").to_string();
+                    match generate_vlq_segment(&[1, 0, x, 0]) {
+                        Ok(want) if want == second => {}
+                        _ => return format!("err encoder-diff-differs {}", x),
+                    }
+                }
+            }
             match generate_vlq_segment(&xs) {
                 Ok(s) => format!("ok {}", to_hex(s.as_bytes())),
                 Err(e) => format!("err {}", err_kind(&e)),
